@@ -235,6 +235,17 @@ func lemmaRepointed(bkt *Bucket, ki *KeyInfo, found bool, newPos Position) bool 
 //@   requires found ==> ghostTreeHas[bkt.htree][ki.KeyHash] && ghostTreeChunk[bkt.htree][ki.KeyHash] == newPos.ChunkID && ghostTreeOff[bkt.htree][ki.KeyHash] == newPos.Offset
 //@   ensures result0
 
+// DESTINATION: the pass writes to the first source file or to a file below it, and every file in
+// between is empty - kept records never land before an uncollected non-empty file (which may hold
+// older versions of the same keys: an index rebuild replays files in order)
+func lemmaDstAdjacent(bkt *Bucket, dst, start int) bool { return true }
+
+//@ func lemmaDstAdjacent
+//@   props C03 C18
+//@   ints math
+//@   requires 0 <= dst && dst <= start && forall(dst+1, start, func(j int) bool { return bkt.datas.chunks[j].size == 0 })
+//@   ensures result0
+
 // ---------- the pass ----------
 
 func gcBktOK(bkt *Bucket) bool {
@@ -262,10 +273,12 @@ func gcReaderOK(bkt *Bucket, r *DataStreamReader, src int) bool {
 //@   modifies *
 //@   ensures forallU64(func(kh uint64) bool { return ghostTreeHas[bkt.htree][kh] == old(ghostTreeHas[bkt.htree][kh]) && ghostTreeVer[bkt.htree][kh] == old(ghostTreeVer[bkt.htree][kh]) && ghostTreeVhash[bkt.htree][kh] == old(ghostTreeVhash[bkt.htree][kh]) })
 //@   ensures chunksIdleExcept(bkt.datas, -1)
+//@   ghost after beginGCWriting#1: lemmaDstAdjacent(bkt, gc.Dst, startChunkID)
 //@   ghost after wrapRecord#1: lemmaKeepRule(isNewest, found, oldPos, treePos, gc.Begin, rec.Payload.Ver)
 //@   ghost after set#1: lemmaAppended(wrec, rec, newPos, gc.Dst, dstchunk, newPos.Offset, recsize)
 //@   ghost after set#1: lemmaRepointed(bkt, ki, found, newPos)
 //@   loop 1 invariant gc.Dst == startChunkID && -1 <= i && i < startChunkID
+//@   loop 1 invariant forall(i+1, startChunkID, func(j int) bool { return bkt.datas.chunks[j].size == 0 })
 //@   loop 2 invariant !ioFailed() && gcBktOK(bkt) && gc.Begin == startChunkID && gc.End == endChunkID && startChunkID <= gc.Src && gc.Src <= endChunkID+1
 //@   loop 2 invariant 0 <= gc.Dst && gc.Dst <= gc.Src && gc.Dst <= endChunkID && dstchunk == &bkt.datas.chunks[gc.Dst] && dstchunk.gcWriter != nil && dstchunk.gcWriter.wbuf != nil && newPos.ChunkID == gc.Dst
 //@   loop 2 invariant gc.Dst == gc.Src ==> dstchunk.rewriting && dstchunk.writingHead == 0
